@@ -201,6 +201,30 @@ def _decorate(g, r, kind):
     return [(el[v], None, 0, False, None) for v in nodes], [(pos[a], pos[b], od[(a, b)]) for a, b in g.edges]
 
 
+def _decorate_sym(g, r):
+    """symmetric decoration: one element per automorphism orbit of the bare graph, one bond order per edge orbit (meso forms,
+    R/S pairs, symmetric dienes and allenes - the inputs that need the stereo-aware tie breaking of the canonicaliser)"""
+    from networkx.algorithms.isomorphism import GraphMatcher
+    nodes = list(g.nodes)
+    deg = dict(g.degree())
+    autos = list(GraphMatcher(g, g).isomorphisms_iter())
+    norb = {v: min(a[v] for a in autos) for v in nodes}
+    eorb = {e: min(tuple(sorted((a[e[0]], a[e[1]]))) for a in autos) for e in g.edges}
+    pick = {}
+    for v in nodes:
+        o = norb[v]
+        if o not in pick:
+            pick[o] = r.choice(LEAF_ELEMENTS) if deg[v] <= 1 else r.choice(('C', 'C', 'C', 'C', 'N'))
+    epick = {}
+    for e in g.edges:
+        o = eorb[e]
+        if o not in epick:
+            x = r.random()
+            epick[o] = 2 if x < .3 and all(deg[v] <= 3 for v in e) else 1
+    pos = {v: i for i, v in enumerate(nodes)}
+    return [(pick[norb[v]], None, 0, False, None) for v in nodes], [(pos[a], pos[b], epick[eorb[(a, b)]]) for a, b in g.edges]
+
+
 def _variants(atoms, bonds, r, k=2):
     """charge / isotope / radical variants of a valid neutral decoration; chemically plausible edits first (onium, -ate, carbanion,
     carbocation, radical in place of a hydrogen), plus unconstrained ones; invalid results are filtered by the caller"""
@@ -284,16 +308,16 @@ def atlas_records(max_nodes, trials, tag='d01', stereo=True, components=True, ma
     import networkx as nx
     r = D.rnd(tag)
     out = []
-    kinds = ('stereo', 'mixed', 'cumul', 'mixed')
+    kinds = ('stereo', 'mixed', 'cumul', 'sym')
     for g in D.atlas(max_nodes):
         seen = set()
         gname = g.name
         tree = nx.is_tree(g)
         for t in range(trials + (trials if tree else 0)):  # trees carry most of the stereo that is outside the documented gaps
             kind = 'plain' if t == 0 else kinds[t % 4]
-            base = _decorate(g, r, kind)
+            base = _decorate_sym(g, r) if kind == 'sym' else _decorate(g, r, kind)
             cands = [base]
-            if kind == 'mixed' or t == 0:
+            if kind in ('mixed', 'sym') or t == 0:
                 cands += _variants(*base, r)
             for ci, (atoms, bonds) in enumerate(cands):
                 atoms, bonds = list(atoms), list(bonds)
@@ -340,4 +364,32 @@ SPECIAL_SMILES = (
     'C12=C3C4=C1C1=C2C3=C41', '[C-]#[O+]', 'C[Si](C)(C)C', 'B(O)(O)c1ccccc1', 'C1=CC2=CC=CC2=C1', 'c1cc[nH]c1', 'c1ccncc1',
     'C%10CCCCC%10', 'C1CC1C1CC1', 'C1CC12CC2', '[U+4]', 'C[Hg]C', '[Cu+2].[O-]C(=O)C.[O-]C(=O)C',
     'C(C1)(C2)(C3)C1C23', 'C1C2CC3CC1CC(C2)C3',
+    'C[C@H](Cl)[C@@H](C)Cl', 'C[C@H](Cl)[C@H](C)Cl', 'O[C@H](C(O)=O)[C@@H](O)C(O)=O', 'O[C@H](C(O)=O)[C@H](O)C(O)=O',
+    'F/C=C/C=C/F', 'F/C=C/C=C\\F', 'F/C=C\\C=C/F', 'C1CCC/C=C/CC1', 'C1CCC/C=C\\CC1', 'C1CCCCC/C=C/C=C/1', 'FC(Cl)=[C@]=C(F)Cl',
+    'FC(Cl)=[C@@]=C(F)Cl', 'CC=[C@]=CC', 'C[C@H](F)C=[C@@]=C[C@H](C)F', 'F/C=C/[C@H](Cl)/C=C/F', 'F/C=C/[C@H](Cl)/C=C\\F',
+    'C[C@H](O)[C@H](Cl)[C@@H](C)O', 'C[C@H](O)[C@@H](Cl)[C@@H](C)O', '[2H][C@H](C)O', '[2H][C@@]([3H])(F)Cl', 'C[C@H](F)[C@@H](C)[18F]',
+    '[13CH3][CH2][12CH3]', '[CH2+]C[CH2-]', '[O-]C(=O)C([O])=O', '[NH3+][C@@H](C)C([O-])=O', 'C[P+](C)(C)[CH-]C', 'C=[N+]=[N-]',
+    '[CH2]C(C)(C)[CH2]', 'C1CC1[C@H](F)C1CC1', 'OC[C@@H](O)[C@H](O)[C@@H](O)CO', 'OC[C@@H](O)[C@@H](O)[C@@H](O)CO',
 )
+
+
+def expander_records(n_atoms=36, count=2, tag='expander'):
+    """all-carbon 4-regular random graphs: every DFS order keeps more than nine ring closures open, so the writer needs the
+    two-digit `%nn` closure numbers (and recycles numbers heavily)"""
+    import networkx as nx
+    r = D.rnd(tag)
+    out = []
+    for i in range(count):
+        while True:
+            g = nx.random_regular_graph(4, n_atoms, seed=r.randrange(10 ** 9))
+            if nx.is_connected(g):
+                break
+        nodes = list(g.nodes)
+        pos = {v: k for k, v in enumerate(nodes)}
+        atoms = [('C', None, 0, False, None) for _ in nodes]
+        if i % 2:  # decorate a little: an isotope and a hetero atom pair
+            atoms[0] = ('C', 13, 0, False, None)
+            atoms[1] = ('Si', None, 0, False, None)
+        out.append({'id': f'expander{n_atoms}#{i}', 'atoms': atoms, 'bonds': [(pos[a], pos[b], 1) for a, b in g.edges],
+                    'tet': [], 'ct': [], 'al': []})
+    return out
